@@ -5,8 +5,9 @@ namespace TinkVerif.Gen.SliceFacts
 /-- **every regenerated fact is classified** -/
 theorem facts_classified : unexpected = [] := by decide +kernel
 
-/-- the scan covered the code base (a drop means the extractor lost packages) -/
-theorem scan_coverage : 100 ≤ packagesScanned := by decide
+/-- the scan covered the code base (a drop means the extractor lost packages; it refuses on its own when a package does
+    not type-check or when no call site resolves) -/
+theorem scan_coverage : 100 ≤ packagesScanned ∧ 1000 ≤ functionsScanned ∧ 1000 ≤ resolvedCallSites := by decide
 
 end TinkVerif.Gen.SliceFacts
 
